@@ -28,7 +28,7 @@ from antlr4 import *
 from .aggregator import DocumentationAggregator
 from cminx import Settings
 from .documentation_types import DocumentationType, ModuleDocumentation
-from .parser import ParserErrorListener
+from .parser import ParserErrorListener, CMakeSyntaxError
 from .parser.CMakeLexer import CMakeLexer
 from .parser.CMakeParser import CMakeParser
 from .rstwriter import RSTWriter, Directive
@@ -114,7 +114,17 @@ class Documenter(object):
 
         # Parse and lex the file, then walk the tree and aggregate the
         # documented commands
-        self.walker.walk(self.aggregator, self.parser.cmake_file())
+        tree = self.parser.cmake_file()
+
+        # A RecognitionException raised by the error listener from inside a nested
+        # rule is caught again by the enclosing rule's recovery handler, so parsing
+        # can "succeed" after a reported error. Never document such a tree.
+        if self.parser.getNumberOfSyntaxErrors() > 0:
+            error = CMakeSyntaxError()
+            error.msg = f"{self.parser.getNumberOfSyntaxErrors()} syntax error(s) in {self.input_stream.fileName}"
+            raise error
+
+        self.walker.walk(self.aggregator, tree)
 
         # All the documented commands are now stored in aggregator.documented,
         # each element is a namedtuple representing the type of documentation it is.
